@@ -489,6 +489,8 @@ def truthy(v):
     if isinstance(v, Tup):
         return len(v.items) > 0
     if isinstance(v, Obj):
+        if '__bool__' in v.methods:
+            return v.methods['__bool__'](None, v)
         t = v.fields.get('__truthy__')
         return True if t is None else t
     if isinstance(v, (ExcV, ClassV, FnV)):
@@ -1482,6 +1484,7 @@ class Executor:
         pre = '%s#loop%d' % (self.c.id, lid)
         idxname = spec.index or '_i%d' % lid
         self.env[idxname] = IntVal(0)
+        self.env['loop_seq'] = seq        # specification name of the sequence being iterated (it may have no name in the code)
         self.vc(pre + '.init', self.inv(spec, self.env))
         self.havoc([n for n in self.assigned_names(s) if n not in self.target_names(s.target)], spec, lid)
         i = self.fresh(idxname + '!L%d' % lid, I)
@@ -1699,6 +1702,9 @@ class Executor:
         return Tup(items, 'list')
 
     def ev_Dict(self, n):
+        if not n.keys and getattr(self.c, 'empty_dict', None) is not None and not getattr(self, '_in_spec', 0):
+            # `{}` in the code under contract: the contract's model of a dict with symbolic keys
+            return self.c.empty_dict(self)
         d = DictV()
         for k, v in zip(n.keys, n.values):
             kk = self.ev(k)
@@ -2038,6 +2044,11 @@ class Executor:
             if isinstance(a, ClassV) and isinstance(b, ClassV):
                 return a.name == b.name
             if isinstance(a, Obj) and isinstance(b, Obj):
+                if '__id__' in a.fields or '__id__' in b.fields:
+                    # objects taken out of a symbolic container carry a symbolic identity token
+                    ia = a.fields.get('__id__', a.uid)
+                    ib = b.fields.get('__id__', b.uid)
+                    return toint(ia) == toint(ib)
                 return a.uid == b.uid      # old(x) is a snapshot of the same object
             return a is b
         if isinstance(a, bool) and isinstance(b, bool):
@@ -2363,6 +2374,8 @@ def _minmax(which):
     def f(ex, *args):
         if len(args) == 1 and isinstance(args[0], Tup):
             args = args[0].items
+        if len(args) == 1 and isinstance(args[0], Obj) and ('__%s__' % which) in args[0].methods:
+            return args[0].methods['__%s__' % which](ex, args[0])
         if len(args) < 2:
             raise Unsupported('min/max of one argument')
         cur = args[0]
@@ -2682,7 +2695,14 @@ INT_METHODS = {'bit_length': _int_bit_length, 'to_bytes': _int_to_bytes}
 
 
 _DG = None
-NOVALUE = Obj('NoValue', {'__truthy__': False}, name='noValue')
+def _novalue_plug(ex, self, *a, **kw):
+    # base.NoValue: every operator of str/int/list/dict is a plug raising PyAsn1Error (read from the class: getPlug)
+    raise _Raise(ExcV('PyAsn1Error'))
+
+
+NOVALUE = Obj('NoValue', {'__truthy__': False}, {'__getitem__': _novalue_plug, '__setitem__': _novalue_plug,
+                                                 '__contains__': _novalue_plug, '__len__': _novalue_plug,
+                                                 '__iter__': _novalue_plug}, name='noValue')
 END_OF_OCTETS = Obj('EndOfOctets', {}, name='eoo.endOfOctets')
 
 
